@@ -104,6 +104,32 @@ def gen_cases(rng, tier):
         miter = rng.choice([0.5, 1.0, 1.05, 1.2, 1.41, 1.5, 2.0, 4.0, 4.0, 10.0, 20.0])
         res = rng.choice([1.0, 1.0, 1.0, 0.25, 4.0])
         cases.append(("stroke_geo", [f2b(width), f2b(miter), rng.randrange(3), rng.randrange(4), f2b(res)] + rand_stroke_path(rng)))
+    # a straight line and a gently curved cubic (quarter-circle-like, radius >= the stroke width) in both orders, all caps: the
+    # caps at a curved end and the offset curves next to them
+    for i in range(120 if q else 1500):
+        R = rng.choice([60.0, 100.0, 150.0])
+        width = R * rng.choice([0.3, 0.6, 0.9, 1.0])
+        k = 0.5523 * R
+        a0 = rng.choice([0.0, math.pi / 2, rng.uniform(0, 6.283)])
+        rot = lambda x, y: (round(200 + x * math.cos(a0) - y * math.sin(a0), 2), round(200 + x * math.sin(a0) + y * math.cos(a0), 2))
+        l0, p0, c1, c2, p3 = rot(-R * rng.uniform(0.8, 1.6), 0), rot(0, 0), rot(k, 0), rot(R, R - k), rot(R, R)
+        if i % 2 == 0:     # line then cubic
+            ops = [0, f2b(l0[0]), f2b(l0[1]), 1, f2b(p0[0]), f2b(p0[1]), 3, f2b(c1[0]), f2b(c1[1]), f2b(c2[0]), f2b(c2[1]), f2b(p3[0]), f2b(p3[1])]
+        else:              # cubic then line (the same geometry traversed backwards)
+            ops = [0, f2b(p3[0]), f2b(p3[1]), 3, f2b(c2[0]), f2b(c2[1]), f2b(c1[0]), f2b(c1[1]), f2b(p0[0]), f2b(p0[1]), 1, f2b(l0[0]), f2b(l0[1])]
+        if i % 6 >= 4:     # a separate contour with a line before the curve-only contour
+            ops = [0, f2b(20.0), f2b(20.0), 1, f2b(60.0), f2b(20.0)] + [0, f2b(p0[0]), f2b(p0[1]), 3, f2b(c1[0]), f2b(c1[1]), f2b(c2[0]), f2b(c2[1]), f2b(p3[0]), f2b(p3[1])]
+        cases.append(("stroke_geo", [f2b(width), f2b(4.0), i % 3, rng.randrange(4), f2b(1.0)] + ops))
+    # tiny geometry stroked at a large resolution scale (what a magnifying draw call does): segments a few hundredths of a unit
+    # long are not "too short to matter" there
+    for i in range(60 if q else 600):
+        S = rng.choice([64.0, 256.0, 512.0])
+        n = rng.randint(3, 8)
+        x, ops = 1.0, [0, f2b(1.0), f2b(1.0)]
+        for j in range(n):
+            x += rng.uniform(6, 10) / S
+            ops += [1, f2b(x), f2b(1.0 + (5.0 / S if j % 2 == 0 else 0.0))]
+        cases.append(("stroke_geo", [f2b(rng.choice([5.0, 7.0]) / S), f2b(4.0), rng.randrange(3), rng.choice([2, 3]), f2b(S)] + ops))
     # cubics and quads with all control points on one line, at arbitrary positions along it (overshooting the end point, turning
     # back once or twice): the stroke must reach the farthest point the curve reaches, in both directions of travel
     for i in range(120 if q else 1500):
@@ -207,7 +233,7 @@ def oracle(suite, args, out):
                 o[4], joins[args[3] % 4], o[5] / 1000.0, o[6] / 1000.0, o[7] / 1000.0)
             return ("MITERCLIP: " + s) if args[3] % 4 == 1 else s
         if o[2] > 0:
-            where = {1: "a straight piece", 4: "an end point with a round cap", 5: "the square cap box beyond an end point", 6: "a vertex with a round join", 7: "the straight stretch traced by a curve whose control points are collinear"}.get(o[8], "the path")
+            where = {1: "a straight piece", 4: "an end point with a round cap", 5: "the square cap box beyond an end point", 6: "a vertex with a round join", 7: "the straight stretch traced by a curve whose control points are collinear", 8: "the body of a curve segment (on the curve or half way to its offset curves)"}.get(o[8], "the path")
             return "%d of %d points within half the stroke width of %s are not covered (first (%.3f,%.3f))" % (o[2], o[1], where, o[6] / 1000.0, o[7] / 1000.0)
         if o[10] > 0:
             return "%d of %d zero-length contours did not get their round / square dot" % (o[10], o[9])
